@@ -22,10 +22,34 @@ def prepare():
     # the harness builds tuftool from /repo: redirect through the environment
     os.environ['VERIF_REPO_DIR'] = f'{S}/repo'
 
+def run_patch(patch, props):
+    """tools/sens.py --patch <patch.diff> C01 C02 ...: apply a seeded change to the scratch copy, run the named checks"""
+    prepare()
+    r = sh(f'cd {S}/repo && git apply --whitespace=nowarn {patch}')
+    if r.returncode != 0:
+        # rsync excluded nothing of .git, so `git apply` works; try with 3-way as a fallback
+        r = sh(f'cd {S}/repo && git apply --3way --whitespace=nowarn {patch}')
+        if r.returncode != 0:
+            print('patch does not apply:', r.stderr.strip()[-400:]); sys.exit(2)
+    ok = True
+    for prop in props:
+        t = time.time()
+        r = sh(f'cd {S}/verif && ./check {prop} quick')
+        dt = time.time() - t
+        viol = [l for l in r.stdout.splitlines() if l.startswith('VIOLATION')]
+        status = 'CAUGHT' if r.returncode == 1 and viol else ('HARNESS-ERROR' if r.returncode == 2 else 'MISSED')
+        msg = [l for l in r.stderr.splitlines() if l.startswith('violation in part')]
+        print(f"{os.path.basename(os.path.dirname(patch)) or patch:30s} {prop} {status:8s} {dt:5.1f}s {msg[0][:300] if msg else (r.stderr.strip()[-300:] if status != 'MISSED' else '')}", flush=True)
+        ok = ok and status == 'CAUGHT'
+    sh(f'cd {S}/repo && git checkout -- . && git clean -fdq -e target')
+    sys.exit(0 if ok else 1)
+
 def main():
     args = sys.argv[1:]
     if args == ['--clean']:
         shutil.rmtree(S, ignore_errors=True); return
+    if args and args[0] == '--patch':
+        return run_patch(os.path.abspath(args[1]), args[2:])
     prepare()
     results = []
     for m in MUTS:
